@@ -2,3 +2,4 @@ import KonstVerif.Model.Basic
 import KonstVerif.Model.Slice
 import KonstVerif.Spec.Slice
 import KonstVerif.Props.C02
+import KonstVerif.Spec.Utf8
